@@ -148,12 +148,15 @@ func (v *ApiValidator) adjustDiagsForConflictingEntry(
 
 	// Same logic as before - if the controller already has a diagnostic for the referenced receiver (route)
 	// use that, otherwise, create a new one and append
-	receiverDiag := relevantDiag.GetChild(receiverDiagKind, entry.Meta.Receiver.Name)
+	receiverDiag := relevantDiag.GetChild(entry.Meta.Receiver.Name, receiverDiagKind)
 	if receiverDiag == nil {
 		diag := diagnostics.NewEntityDiagnostic(receiverDiagKind, entry.Meta.Receiver.Name)
 		diag.AddDiagnostic(receiverResolvedDiag)
 		relevantDiag.AddChild(&diag)
-	} else {
+	} else if !slices.ContainsFunc(receiverDiag.Diagnostics, func(existing diagnostics.ResolvedDiagnostic) bool {
+		return existing.Equal(receiverResolvedDiag)
+	}) {
+		// A route that conflicts with several others for the same reason is told so once
 		receiverDiag.AddDiagnostic(receiverResolvedDiag)
 	}
 
